@@ -519,6 +519,33 @@ pub fn c12(ctx: &mut Ctx) {
         if let Err(pi) = r {
             l.subject_panic("dispatch-or-conversion", &pi, || hex_short(s));
         }
+        // the generic parser is also reached through compound iteration: whatever stands before or after a tile,
+        // the item handed out for it is what the generic parser (hence the typed parser) says about that tile
+        if let Some(tiles) = read::tile(s) {
+            if tiles.len() >= 2 {
+                l.transitions += 1;
+                let r = guard::catch(|| {
+                    if let Ok(c) = Compound::parse(s) {
+                        for (i, got) in c.take(tiles.len()).enumerate() {
+                            let (a, b) = tiles[i];
+                            let want = Packet::parse(&s[a..b]);
+                            l.validated += 1;
+                            if !packet_results_equal(&got, &want) {
+                                l.violation("dispatch-disagrees:inside-a-compound", || hex_short(s), || format!("tile {} ({}..{}): the compound hands out {:?}, Packet::parse of the tile gives {:?}", i, a, b, got, want));
+                                return;
+                            }
+                            if want.is_err() {
+                                return;
+                            }
+                        }
+                        l.hit("dispatch-agrees:inside-a-compound");
+                    }
+                });
+                if let Err(pi) = r {
+                    l.subject_panic("dispatch:compound", &pi, || hex_short(s));
+                }
+            }
+        }
     });
     ctx.require_hit("dispatch-agrees:ok");
     ctx.require_hit("dispatch-agrees:err");
@@ -527,6 +554,7 @@ pub fn c12(ctx: &mut Ctx) {
     ctx.require_hit("conversion:from-unknown");
     ctx.require_hit("unknown-exposes-input");
     ctx.require_hit("well-framed unknown type accepted");
+    ctx.require_hit("dispatch-agrees:inside-a-compound");
 }
 
 fn c12_case(s: &[u8], l: &mut Local) {
